@@ -54,6 +54,9 @@ func genC19(r *prng) *plan {
 	}
 	p.Cfg["size"] = int64(1500 + r.intn(30000))
 	p.Cfg["nkeys"] = int64(2 + r.intn(5))
+	if r.chance(50) {
+		p.Cfg["decl"] = int64(r.intn(64))
+	}
 	// restart story (real <-> puppet, second sweep onwards): after the exchanges the peer restarts under the
 	// same key advertising another set; the node still holds the old record in its table when the peer's next
 	// requests arrive with the new one
@@ -149,6 +152,7 @@ func runC19(seed uint64) {
 	pBig := valueFor(int64(seed)+99, size)
 	pBigKey := append([]byte{0x01}, w.rng.bytes(24)...)
 	var gotOffer [][]byte
+	declMask := int(p.cfg("decl")) & (1<<uint(len(keys)) - 2) // the first key is never declined, so something is always accepted
 	P.handlers[string(portalwire.History)] = func(from *enode.Node, addr *net.UDPAddr, msg []byte) []byte {
 		if len(msg) == 0 {
 			return nil
@@ -161,7 +165,9 @@ func runC19(seed uint64) {
 			}
 			all := make([]bool, len(ks))
 			for i := range all {
-				all[i] = true
+				// the peer declines the keys the plan names (never all of them): the stream must carry the
+				// contents of exactly the accepted ones, in order
+				all[i] = declMask&(1<<uint(i)) == 0
 			}
 			cid := P.utp.CidWithAddr(from, addr, false)
 			go func() {
@@ -328,9 +334,19 @@ func runC19(seed uint64) {
 				w.violate("C19", "transfer-failed", "V advertises %s, peer %s (v%d): accepted offer content never arrived", c19Name(ai), c19Name(bi), ver)
 				continue
 			}
-			if !bytes.Equal(gotOffer[len(gotOffer)-1], frameItems(items)) {
-				w.violate("C19", "offer-stream", "offer stream (%d bytes) is not the framing of the %d accepted items", len(gotOffer[len(gotOffer)-1]), len(items))
+			var accItems [][]byte
+			for i := range items {
+				if declMask&(1<<uint(i)) == 0 {
+					accItems = append(accItems, items[i])
+				}
+			}
+			if !bytes.Equal(gotOffer[len(gotOffer)-1], frameItems(accItems)) {
+				w.violate("C19", "offer-stream", "offer stream (%d bytes) is not the framing of the %d accepted items (of %d offered)", len(gotOffer[len(gotOffer)-1]), len(accItems), len(items))
+				w.violate("C09", "offered-stream-items", "the peer accepted %d of %d offered keys (declined mask %b): the stream the node sent (%d bytes) is not the contents of the accepted keys in order", len(accItems), len(items), declMask, len(gotOffer[len(gotOffer)-1]))
 				continue
+			}
+			if declMask != 0 {
+				w.probe("offer_out_partly_declined")
 			}
 			w.op("offer_out -> accepted %s, stream ok", acc)
 			w.probe(fmt.Sprintf("offer_out_v%d", ver))
